@@ -6,6 +6,7 @@ import suite_types
 import suite_join
 import suite_sort
 import suite_group
+import suite_heap
 
 
 def c04(rep, tier, seed):
@@ -80,7 +81,62 @@ def c14(rep, tier, seed):
     suite_sort.trace(rep, tier, seed)
 
 
+HEAP_ASSUME = [
+    "SerifHeap abstracts element values to {0, 1, None, one float}; lengths <= 2 (model) / <= 3 (traces)",
+    "liveness is reference counting: dropping the last reference kills an object immediately",
+    "internal reads (_ALIAS_TRACKER._registry, _fp, _underlying identity) are used only to project the state; "
+    "under-registration and memo presence are recorded as notes, never as violations",
+]
+
+
+def c01(rep, tier, seed):
+    rep.assumptions += HEAP_ASSUME + ["a column obtained from a table is a live view: writing through it changes that table"]
+    cl = ("contents@other", "name@other", "dtype@other", "sharing", "structure", "leaked_write", "contents", "name", "dtype", "liveness")
+    suite_heap.mc(rep, tier, ["tables", "alias"])
+    suite_heap.devs(rep, ["SetAttrShare"])
+    suite_heap.gen(rep, tier, "tables", cl)
+    suite_heap.gen(rep, tier, "tables2", cl)
+    suite_heap.trace(rep, tier, seed, cl)
+
+
+def c02(rep, tier, seed):
+    rep.assumptions += HEAP_ASSUME + ["'rejected rather than stored' = an exception or a non-Table result"]
+    cl = ("rectangular", "row_view", "ragged_outcome", "structure")
+    suite_heap.mc(rep, tier, ["tables"])
+    suite_heap.devs(rep, ["RaggedAccepted"])
+    suite_heap.gen(rep, tier, "tables2", cl)
+    suite_heap.gen(rep, tier, "tables", cl)
+    suite_heap.trace(rep, tier, seed, cl)
+
+
+def c15(rep, tier, seed):
+    rep.assumptions += HEAP_ASSUME + [
+        "a shared write that is not refused but stays local (copy-on-write) is allowed; only refusal without sharing, "
+        "a write visible through another vector, or a live registration under an identity its owner does not use are violations",
+    ]
+    cl = ("spurious_refusal", "leaked_write", "registry", "sharing")
+    suite_heap.mc(rep, tier, ["alias", "tables"])
+    suite_heap.devs(rep, ["NoUnregister", "SetAttrNoReregister"])
+    suite_heap.gen(rep, tier, "alias", cl)
+    suite_heap.gen(rep, tier, "tables", cl)
+    suite_heap.trace(rep, tier, seed, cl)
+
+
+def c16(rep, tier, seed):
+    rep.assumptions += HEAP_ASSUME + ["hash collisions of the 61-bit fingerprint are excluded by the small value palette"]
+    cl = ("fp_value", "outcome")
+    suite_heap.mc(rep, tier, ["alias", "tables"])
+    suite_heap.devs(rep, ["VecFpNotInvalidated", "TableFpMemo"])
+    suite_heap.gen(rep, tier, "alias", cl)
+    suite_heap.gen(rep, tier, "tables", cl)
+    suite_heap.trace(rep, tier, seed, cl)
+
+
 CHECKS = {
+    "C01": c01,
+    "C02": c02,
+    "C15": c15,
+    "C16": c16,
     "C12": c12,
     "C13": c13,
     "C14": c14,
